@@ -19,3 +19,5 @@ def run(rep: Report, repo: Repo, tier: str) -> None:
     fsrules.rule_predicates_agree(rep, repo, "C13-R4c")
     fsrules.rule_same_source(rep, repo, "C13-R4d")
     fsrules.rule_isolation(rep, repo, "C13-R5")
+    fsrules.rule_listing_before_creation(rep, repo, "C13-R6")
+    fsrules.rule_index_always_written(rep, repo, "C13-R7")
